@@ -73,7 +73,7 @@ func genReplay(g *Rng, tier string) *Plan {
 			for q, nc := 0, g.PickW(1, 6, 2); q < nc; q++ { // 0, 1 or 2 subject confirmations
 				c := "match"
 				if g.Bool(0.25) {
-					c = Pick(g, "other", "empty", "near", "case")
+					c = Pick(g, "other", "empty", "near", "case", "nodata")
 				}
 				if st.RespIRT == "resolve-id" {
 					c = "resolve-id" // an IdP that stamps the artifact-resolution request's ID on everything it returns
@@ -200,6 +200,7 @@ func execReplay(t *testing.T, p *Plan) *Result {
 		spec     RespSpec
 		at       time.Time
 		n        int
+		noData   bool // some confirmation has no SubjectConfirmationData element
 	}
 	var flows []*flow
 	var resps []*resp
@@ -279,7 +280,14 @@ func execReplay(t *testing.T, p *Plan) *Result {
 				if ci < len(st.Methods) {
 					m = st.Methods[ci]
 				}
-				a.Confs = append(a.Confs, ConfSpec{Method: m, NotOnOrAfter: i64(3_600_000), Recipient: spBase + "/saml/acs", InResponseTo: v})
+				cs := ConfSpec{Method: m, NotOnOrAfter: i64(3_600_000), Recipient: spBase + "/saml/acs", InResponseTo: v}
+				if c == "nodata" {
+					// the confirmation has no SubjectConfirmationData element at all (schema-legal): its InResponseTo is absent, like
+					// everything else it could have said
+					cs = ConfSpec{Method: m, NoData: true}
+					r.noData = true
+				}
+				a.Confs = append(a.Confs, cs)
 			}
 			if st.Pretty {
 				spec.Pretty, a.Pretty = true, true
@@ -378,6 +386,12 @@ func execReplay(t *testing.T, p *Plan) *Result {
 			case !respOK || !confOK:
 				expect = "REJECT"
 			}
+			if r.noData {
+				res.probe("confirmation-without-data")
+				if expect == "ACCEPT" {
+					expect = "DONT_CARE" // whether a confirmation that says nothing is acceptable at all is not this property's business
+				}
+			}
 
 			var as *saml.Assertion
 			var err error
@@ -449,7 +463,11 @@ func execReplay(t *testing.T, p *Plan) *Result {
 			}
 			switch expect {
 			case "DONT_CARE":
-				res.dontcare("custom-validator")
+				if r.noData {
+					res.dontcare("confirmation-without-data")
+				} else {
+					res.dontcare("custom-validator")
+				}
 			case "ACCEPT":
 				if as == nil {
 					res.violate(si, "valid-answer-rejected", "C04/valid-answer-rejected/"+st.Entry, expect, observed, privErr(err))
